@@ -45,7 +45,7 @@ def rule_gate(ctx: Ctx, repo: Repo) -> None:
     for p in call_points:
         n_entry += p.kind == "entry"
         n_resume += p.kind == "resume"
-        for rate in (None, 1, 3):
+        for rate in ((None, 1, 2, 3, 5) if TIER == "thorough" else (None, 1, 3)):
             draws = [None] if rate is None else list(range(rate))
             for func in (S("func"), K(None)):
                 for in_traces in (False, True):
@@ -150,7 +150,12 @@ def rule_forwarding(ctx: Ctx, repo: Repo) -> None:
                   "R-C18.5", m.fq, "shipped configurations do not sample (rate None)", construct=norm(m.node.body[-1]))
 
 
+TIER = "quick"
+
+
 def run(ctx: Ctx, repo: Repo, tier: str) -> None:
+    global TIER
+    TIER = tier
     ctx.trust(*TRUSTED)
     ctx.trust("random.randrange(n) is uniform over range(n)")
     rule_gate(ctx, repo)
